@@ -44,7 +44,12 @@ PtrMeth == {Program("marshal", e, "ptrmeth", FALSE, <<x>>) : e \in Encs, x \in S
 IfaceT == {Program(d, e, "ifacetype", TRUE, <<x>>) : d \in Dirs, e \in Encs, x \in Small}
           \cup {Program(d, e, "ifacetype", TRUE, <<x, y>>) : d \in Dirs, e \in Encs, x \in Tiny, y \in Tiny}
           \cup {Program(d, e, "ifacetype", TRUE, <<>>) : d \in Dirs, e \in Encs}
-Other == IfaceT \cup {Program(d, e, r, FALSE, <<x>>) : d \in Dirs, e \in Encs, r \in Recvs, x \in Small} \cup TinyPairs \cup PtrMeth
+\* a Before hook that completes the case it receives (the table holds placeholder data, the hook puts
+\* in the real data): for the verdict that is a hook that succeeds, HookFails("set") = FALSE
+SetHook == {p \in {Program(d, e, r, TRUE, <<Case(c, "set", "nil", beh, exp)>>) : d \in Dirs, e \in Encs, r \in Recvs, c \in Constraints,
+                       beh \in Behaviours, exp \in {"none", "any", "eq"}} : Instantiable(p.cases[1])}
+           \cup {Program(d, e, "value", TRUE, <<Case("both", "set", "nil", "right", "none"), Case("both", "nil", "nil", beh, "none")>>) : d \in Dirs, e \in Encs, beh \in {"right", "wrong"}}
+Other == SetHook \cup IfaceT \cup {Program(d, e, r, FALSE, <<x>>) : d \in Dirs, e \in Encs, r \in Recvs, x \in Small} \cup TinyPairs \cup PtrMeth
          \cup {Program(d, e, r, i, <<>>) : d \in Dirs, e \in Encs, r \in Recvs, i \in BOOLEAN}
          \cup {Program(d, e, "value", TRUE, <<x, y, z>>) : d \in Dirs, e \in {"Text"},
                  x \in {Case("marshal", "nil", "nil", "error", "none"), Case("unmarshal", "nil", "nil", "error", "none")},
